@@ -267,22 +267,23 @@ class Exec:
         npaths = 0
         while todo:
             if deadline is not None and time.time() > deadline:
-                raise Inconclusive('exploration deadline in %s after %d paths' % (fname, npaths))
+                raise Inconclusive('exploration deadline in %s after %d paths' % (getattr(fname, '__name__', fname), npaths))
             prefix = todo.pop()
             self.reset(prefix)
             try:
                 args = setup(self)
-                ret = self.call(fname, args)
+                ret = fname(self, args) if callable(fname) else self.call(fname, args)
                 status = 'ret'
             except AssertFail as e:
                 ret = str(e); status = 'assert_fail'
             except Infeasible:
+                todo.extend(self.new_alts)      # alternatives discovered before the path was cut are still explored
                 continue
             todo.extend(self.new_alts)
             npaths += 1; self.npaths += 1
             on_path(self, status, ret)
             if npaths >= max_paths:
-                raise Inconclusive('path budget %d exhausted in %s' % (max_paths, fname))
+                raise Inconclusive('path budget %d exhausted in %s' % (max_paths, getattr(fname, '__name__', fname)))
         return npaths
 
     def reset(self, prefix=()):
@@ -425,12 +426,14 @@ class Exec:
         s = a + b
         if self.ovf_mode == 'obligation':
             self.ovf.append(('add', s < M(bits))); return s
+        if self.ovf_mode == 'lazy' and not self.sat(s >= M(bits)): return s
         return z3.If(s < M(bits), s, s - M(bits))
 
     def wrap_sub(self, a, b, bits):
         if isinstance(a, int) and isinstance(b, int): return (a - b) % M(bits)
         if self.ovf_mode == 'obligation':
             self.ovf.append(('sub', a >= b)); return a - b
+        if self.ovf_mode == 'lazy' and not self.sat(a < b): return a - b
         return z3.If(a >= b, a - b, a - b + M(bits))
 
     def wrap_mul(self, a, b, bits):
